@@ -11,7 +11,7 @@ use serde::{Deserialize, Serialize};
 use serde_json::{json, Value};
 
 use crate::chain::{Chain, Entry, Event, Fault, FaultMode, Frame, Kind, ModMsg, SinkAct, TxResult};
-use crate::paging::{check_paging, LIMITS};
+use crate::paging::{check_paging, check_stale_cursors, LIMITS};
 use crate::rawkeys;
 use crate::snaps::{norm_coins, snap_cw1, Cw1Snap, Snap};
 use crate::trace::{coins, Step, Violation};
@@ -774,6 +774,23 @@ impl WorldB {
         if let Err((c, d)) = r {
             viols.push(("cw1-subkeys-all-allowances", c, d, hidden > 0));
         }
+        {
+            // cursors that are not (or no longer) listed spenders
+            let stale: Vec<String> = self.universe.iter().filter(|a| !expected.iter().any(|e| &e.0 == *a)).take(4).cloned().collect();
+            let r = check_stale_cursors::<(String, Vec<Coin>, Expiration), String>(
+                &expected,
+                &|cur, lim| {
+                    chain
+                        .query::<cw1_subkeys::msg::AllAllowancesResponse>("sk", &json!({"all_allowances":{"start_after":cur,"limit":lim}}))
+                        .map(|r| r.allowances.into_iter().map(|a| (a.spender, a.balance.0, a.expires)).collect())
+                },
+                &|i| i.0.clone(),
+                &stale,
+            );
+            if let Err((c, d)) = r {
+                viols.push(("cw1-subkeys-all-allowances", c, d, hidden > 0));
+            }
+        }
         let expected: Vec<(String, (bool, bool, bool, bool))> = rawkeys::entries(&dump, "permissions")
             .into_iter()
             .filter_map(|(k, v)| {
@@ -857,6 +874,14 @@ impl WorldB {
     /// who is paid: mostly somebody of the universe, now and then the proxy itself (or the other proxy) — the
     /// contract's own address is a legal recipient like any other
     fn pick_recipient(&self, rng: &mut Rng) -> String {
+        if rng.chance(1, 18) {
+            // the proxy relays the message as submitted: a recipient string it cannot judge is the bank's business
+            return match rng.below(3) {
+                0 => "not-an-address".to_string(),
+                1 => rng.pick(&self.universe).to_uppercase(),
+                _ => "osmo1qypqxpq9qcrsszg2pvxq6rs0zqg3yyc5lzv7xu".to_string(),
+            };
+        }
         if rng.chance(1, 7) {
             let l = *rng.pick(&["sk", "sk", "wl"]);
             let a = self.chain.addr(l);
